@@ -73,10 +73,12 @@ ModelStep(e, op) ==
       [] op.op = "rot" -> LET r == StepRot(e, op.export) IN [s |-> r.s, nz |-> r.wrote, exact |-> -1]
       [] op.op = "addbp" -> LET r == StepAddBP(e, op.bp) IN [s |-> r.s, nz |-> r.idx > 0, exact |-> r.idx]
       [] op.op = "setbp" -> LET r == StepSetBP(e, op.i) IN [s |-> r.s, nz |-> r.ok, exact |-> IF r.ok THEN 1 ELSE 0]
+      [] op.op = "editbp" -> [s |-> StepEditBP(e, op.bp), nz |-> FALSE, exact |-> 0]
       [] op.op = "wbx" -> \* write_block(block) with a block built through the raw add_* API; the buffered block is untouched
             LET b == RawModelBlock(op, e.bps) IN
             IF ItemCount(b) = 0 THEN [s |-> e, nz |-> FALSE, exact |-> -1]
-            ELSE [s |-> [e EXCEPT !.cur = Append(@, b), !.bw = @ + 1, !.hdr = IF e.bw = 0 THEN Len(e.bps) ELSE @],
+            ELSE [s |-> [e EXCEPT !.cur = Append(@, b), !.bw = @ + 1, !.hdr = IF e.bw = 0 THEN Len(e.bps) ELSE @,
+                                   !.hb = IF e.bw = 0 THEN e.bps ELSE @],
                   nz |-> TRUE, exact |-> -1]
       [] OTHER -> [s |-> e, nz |-> FALSE, exact |-> 0]
 
@@ -151,7 +153,7 @@ TreeViol(bt, d, ln) ==
 RECURSIVE BlocksViol(_, _, _, _, _, _)
 BlocksViol(dblocks, mblocks, bps, who, ln, i) ==
     IF i > Len(mblocks) THEN <<>>
-    ELSE BlockViol(dblocks[i], mblocks[i], 0, bps[mblocks[i].bpi + 1], who, ln)
+    ELSE BlockViol(dblocks[i], mblocks[i], 0, mblocks[i].bp, who, ln)
          \o BlocksViol(dblocks, mblocks, bps, who, ln, i + 1)
 
 RECURSIVE TreesViol(_, _, _, _, _)
@@ -185,10 +187,10 @@ OutViol(ev, o, ln) ==
          ELSE <<[l |-> ln, prop |-> "C02,C13", what |-> "an output to which no block was written received data", got |-> Len(bytes)]>>)
     ELSE
     LET P == Parse(bytes) IN
-    IF ~P.ok THEN <<[l |-> ln, prop |-> "C02,C13,C01", what |-> "closed output is not exactly one well-formed CBOR data item",
+    IF ~P.ok THEN <<[l |-> ln, prop |-> "C02,C13,C01,C09", what |-> "closed output is not exactly one well-formed CBOR data item",
                      size |-> Len(bytes)]>>
     ELSE LET errs == FileErrs(P.n) IN
-    IF errs # {} THEN <<[l |-> ln, prop |-> "C02,C13,C01", what |-> "closed output violates the RFC 8618 schema", errs |-> errs]>>
+    IF errs # {} THEN <<[l |-> ln, prop |-> "C02,C13,C01,C09", what |-> "closed output violates the RFC 8618 schema", errs |-> errs]>>
     ELSE
     LET D    == DenFile(P.n)
         expP == ExpPreamble(o)
@@ -224,10 +226,10 @@ FormViol(ev, ln) ==
     IF ~ev.raw_ok THEN <<[l |-> ln, prop |-> "C14,C02", what |-> "closed compressed output is not one complete stream"]>>
     ELSE IF Len(bytes) = 0 THEN <<>>
     ELSE LET P == Parse(bytes) IN
-         IF ~P.ok THEN <<[l |-> ln, prop |-> "C02,C13,C01", what |-> "closed output is not exactly one well-formed CBOR data item",
+         IF ~P.ok THEN <<[l |-> ln, prop |-> "C02,C13,C01,C09", what |-> "closed output is not exactly one well-formed CBOR data item",
                           size |-> Len(bytes)]>>
          ELSE IF FileErrs(P.n) # {}
-         THEN <<[l |-> ln, prop |-> "C02,C13,C01", what |-> "closed output violates the RFC 8618 schema", errs |-> FileErrs(P.n)]>>
+         THEN <<[l |-> ln, prop |-> "C02,C13,C01,C09", what |-> "closed output violates the RFC 8618 schema", errs |-> FileErrs(P.n)]>>
          ELSE IF "rd" \in DOMAIN ev /\ ev.rd.fin # "eof"
          THEN <<[l |-> ln, prop |-> "C01,C02", what |-> "the library's own reader fails on the output: " \o ev.rd.fin]>>
          ELSE <<>>
